@@ -352,8 +352,15 @@ func TestVerif_C19race(t *testing.T) {
 				}
 			}(g)
 		}
-		wg.Wait()
-		<-done
+		finished := make(chan struct{})
+		go func() { wg.Wait(); <-done; close(finished) }()
+		select {
+		case <-finished:
+		case <-time.After(30 * time.Second):
+			// real time is only a hang guard and never a verdict: the deterministic
+			// (virtual-time) half of this check decides whether notify can block
+			t.Fatalf("verif: concurrent run did not finish within 30 s of real time (inconclusive)")
+		}
 		part.Done++
 	}
 	part.Complete = true
